@@ -96,6 +96,7 @@ static void run_case(const std::string& cid, Toks& t) {
             if (o.dump) { s << " A " << seq_triples(Al); if (l < L - 1) s << " P " << Pl->n_cols << " " << seq_triples(Pl); }
             std::ostringstream key; key << "LEV" << l; emit0(cid, key.str(), s.str());
         }
+        Multilevel* ml2 = NULL; CSRMatrix* As2 = NULL;
         std::string h_before;
         for (int l = 0; l < L; l++) h_before += snap_mat(ml->levels[l]->A) + (l < L - 1 ? snap_mat(ml->levels[l]->P) : std::string());
         h_before += bits_of(ml->A_coarse) + bits_of(ml->LU_permute);
@@ -103,6 +104,18 @@ static void run_case(const std::string& cid, Toks& t) {
             std::string op = t.next(); std::ostringstream ks; ks << k;
             if (op == "P") { double s = sentinel(t.next_int());
                 for (int l = 0; l < L; l++) { poison(ml->levels[l]->x, s); poison(ml->levels[l]->b, s); poison(ml->levels[l]->tmp, s); }
+                continue; }
+            if (op == "X") {
+                // cross-talk: one cycle of a sibling hierarchy (same class and options, the matrix with its diagonal doubled:
+                // same sizes on level 0) between two operations of this one; anything it leaves behind is hidden shared state
+                int xi2 = t.next_int(), bi2 = t.next_int();
+                if (!ml2) { As2 = As->copy(); for (int i = 0; i < As2->n_rows; i++) for (int q = As2->idx1[i]; q < As2->idx1[i + 1]; q++) if (As2->idx2[q] == i) As2->vals[q] *= 2.0;
+                    if (cls == "seqrs") ml2 = new RugeStubenSolver(o.theta, (coarsen_t)o.coarsen, (interp_t)o.interp, (strength_t)o.strength, (relax_t)o.relax);
+                    else ml2 = new SmoothedAggregationSolver(o.theta, MIS, JacobiProlongation, (strength_t)o.strength, (relax_t)o.relax);
+                    ml2->max_coarse = o.max_coarse; ml2->max_levels = o.max_levels; ml2->relax_weight = o.omega; ml2->num_smooth_sweeps = o.sweeps;
+                    ml2->setup(As2); }
+                Vector x2(lit.nr), b2(lit.nr); for (int i = 0; i < lit.nr; i++) { x2[i] = vecs[xi2][i]; b2[i] = vecs[bi2][i]; }
+                ml2->cycle(x2, b2, 0);
                 continue; }
             int xi = t.next_int(), bi = t.next_int();
             Vector x(lit.nr), b(lit.nr);
@@ -130,7 +143,7 @@ static void run_case(const std::string& cid, Toks& t) {
         for (int l = 0; l < L; l++) h_after += snap_mat(ml->levels[l]->A) + (l < L - 1 ? snap_mat(ml->levels[l]->P) : std::string());
         h_after += bits_of(ml->A_coarse) + bits_of(ml->LU_permute);
         emit0(cid, "HOK", (h_after == h_before && snap_mat(As) == as_before) ? "1" : "0");
-        delete ml; delete As; return;
+        delete ml; delete As; if (ml2) { delete ml2; delete As2; } return;
     }
 
     ParCSRMatrix* A = lit.csr();
@@ -161,10 +174,24 @@ static void run_case(const std::string& cid, Toks& t) {
         for (int l = 0; l < L; l++) { h += snap_par(ml->levels[l]->A); if (l < L - 1) h += snap_par(ml->levels[l]->P); }
         h += bits_of(ml->A_coarse) + bits_of(ml->LU_permute); return h; };
     std::string h_before = snap_h();
+    ParMultilevel* pml2 = NULL; ParCSRMatrix* pA2 = NULL;
     for (int k = 0; k < nops; k++) {
         std::string op = t.next(); std::ostringstream ks; ks << k;
         if (op == "P") { double s = sentinel(t.next_int());
             for (int l = 0; l < L; l++) { poison(ml->levels[l]->x.local, s); poison(ml->levels[l]->b.local, s); poison(ml->levels[l]->tmp.local, s); }
+            continue; }
+        if (op == "X") {      // cross-talk with a sibling hierarchy (see the sequential branch)
+            int xi2 = t.next_int(), bi2 = t.next_int();
+            if (!pml2) { pA2 = A->copy();
+                for (int i = 0; i < pA2->local_num_rows; i++) for (int q = pA2->on_proc->idx1[i]; q < pA2->on_proc->idx1[i + 1]; q++)
+                    if (pA2->on_proc_column_map[pA2->on_proc->idx2[q]] == pA2->local_row_map[i]) pA2->on_proc->vals[q] *= 2.0;
+                if (cls == "parrs") pml2 = new ParRugeStubenSolver(o.theta, (coarsen_t)o.coarsen, (interp_t)o.interp, (strength_t)o.strength, (relax_t)o.relax);
+                else pml2 = new ParSmoothedAggregationSolver(o.theta, MIS, JacobiProlongation, (strength_t)o.strength, (relax_t)o.relax);
+                pml2->max_coarse = o.max_coarse; pml2->max_levels = o.max_levels; pml2->relax_weight = o.omega; pml2->num_smooth_sweeps = o.sweeps;
+                pml2->tap_amg = o.tap; pml2->solve_tol = o.tol;
+                pml2->setup(pA2); }
+            ParVector x2(lit.nr, nloc), b2(lit.nr, nloc); fill_parvec(x2, first, vecs[xi2]); fill_parvec(b2, first, vecs[bi2]);
+            pml2->cycle(x2, b2);
             continue; }
         int xi = t.next_int(), bi = t.next_int();
         ParVector x(lit.nr, nloc), b(lit.nr, nloc);
@@ -195,7 +222,7 @@ static void run_case(const std::string& cid, Toks& t) {
     int ok = (snap_h() == h_before && snap_par(A) == a_before) ? 1 : 0, all_ok = 0;
     MPI_Allreduce(&ok, &all_ok, 1, MPI_INT, MPI_MIN, MPI_COMM_WORLD);
     emit0(cid, "HOK", all_ok ? "1" : "0");
-    delete ml; delete A;
+    delete ml; delete A; if (pml2) { delete pml2; delete pA2; }
 }
 
 int main(int argc, char** argv) { return par_main(argc, argv, run_case); }
